@@ -67,6 +67,7 @@ type rigConf struct {
 	MinAge       time.Duration `json:"min_age"`
 	Compression  int           `json:"compression"`
 	SlowRead     bool          `json:"slow_read,omitempty"` // source file reads take time (see storeWrap.GetOpener)
+	DeleteDelay  time.Duration `json:"delete_delay,omitempty"` // tag option delete-delay: a confirmed file is deleted only when its modification time is this old (then by a later scan)
 	DamageFirst  bool          `json:"damage_first,omitempty"` // the first transmission of every part arrives damaged (every file fails validation once)
 	// eligibility (C17)
 	IncludeHidden bool     `json:"include_hidden"`
@@ -473,7 +474,7 @@ func (g *gkWrap) Ready() bool {
 
 func (r *rig) sourceConf() *sts.SourceConf {
 	c := r.conf
-	tag := &sts.TagConf{Method: sts.MethodHTTP, Delete: c.Delete}
+	tag := &sts.TagConf{Method: sts.MethodHTTP, Delete: c.Delete, DeleteDelay: c.DeleteDelay}
 	if c.Ordered {
 		tag.Order = sts.OrderFIFO
 	} else {
